@@ -363,3 +363,85 @@ def check_thin_wrappers(ctx, F, rule="E-FFI.thin"):
         else:
             ctx.ob(rule, "%s:%s" % (rule, key), True, "thin", nontrivial=False)
     return n
+
+
+# ---- sibling agreement of the three C modules --------------------------------------------------------------------
+SIBLING_EXCEPTIONS = {
+    # (function suffix, kind) -> why this member legitimately differs from its siblings
+    ("false", "zbdd"): "the ZBDD constant false is the empty family: delegates to oxidd_zbdd_empty",
+    ("pick_cube", "zbdd"): "builds the empty result slice explicitly instead of using slice::EMPTY",
+}
+_DROP = ("ln", "lid", "exp", "lbl", "to", "ga", "rty", "hty", "ty")
+
+
+def _norm_hir(h, kind):
+    import json
+    names = {}
+
+    def walk(x):
+        if isinstance(x, dict):
+            out = {}
+            for k, v in x.items():
+                if k in _DROP:
+                    continue
+                out[k] = walk(v)
+            # alpha-rename locals in order of first appearance
+            if x.get("k") == "bind" or (x.get("k") == "path" and x.get("res") == "local"):
+                out["n"] = names.setdefault(x.get("n"), "v%d" % len(names))
+            return out
+        if isinstance(x, list):
+            return [walk(v) for v in x]
+        return x
+    s = json.dumps(walk({"params": h.get("params"), "body": h.get("body")}), sort_keys=True)
+    K = kind.upper()
+    for a, b in (("oxidd_%s_" % kind, "oxidd_K_"), ("::%s_" % kind, "::K_"), ("%s_t" % kind, "K_t"), ("::%s::" % kind, "::K::"),
+                 (K + "Function", "KFunction"), (K + "ManagerRef", "KManagerRef"), (K + "Manager", "KManager"),
+                 ("oxidd_rules_bdd::simple", "RULES"), ("oxidd_rules_bdd::complement_edge", "RULES"), ("oxidd_rules_zbdd", "RULES")):
+        s = s.replace(a, b)
+    return re.sub(r"\{impl#\d+\}", "{impl}", s)
+
+
+def check_siblings(ctx, F, rule="E-FFI.siblings"):
+    """`bdd.rs`, `bcdd.rs` and `zbdd.rs` of the C interface export the same functions for three diagram kinds; a
+    function `oxidd_<kind>_<name>` must be the same program as its siblings up to the kind's names (type-checked HIR
+    with kind names, local names, generic arguments and line numbers normalised).  A member that deviates does
+    something its siblings -- and the Rust API they all wrap -- do not (state kept across calls, an argument
+    dropped, a different callee); reviewed deviations are listed in SIBLING_EXCEPTIONS."""
+    mods = {"bdd": "oxidd_ffi_c::bdd::", "bcdd": "oxidd_ffi_c::bcdd::", "zbdd": "oxidd_ffi_c::zbdd::"}
+    by = {}
+    for fid, h in F.hir.items():
+        for k, m in mods.items():
+            if fid.startswith(m) and fid.count("::") == 2:
+                name = fid[len(m):]
+                if not name.startswith("oxidd_%s_" % k):
+                    continue
+                by.setdefault(name[len("oxidd_%s_" % k):], {})[k] = (fid, _norm_hir(h, k))
+    n = 0
+    used = set()
+    for suf, d in sorted(by.items()):
+        members = {k: v for k, v in d.items() if (suf, k) not in SIBLING_EXCEPTIONS}
+        used |= {(suf, k) for k in d if (suf, k) in SIBLING_EXCEPTIONS}
+        if len(members) < 2:
+            continue
+        n += 1
+        groups = {}
+        for k, (fid, s) in members.items():
+            groups.setdefault(s, []).append(k)
+        ok = len(groups) == 1
+        detail = "oxidd_*_%s: %s agree" % (suf, "/".join(sorted(members)))
+        if not ok:
+            big = max(groups.values(), key=len)
+            odd = sorted(k for g in groups.values() if g is not big for k in g)
+            if len(big) == 1:
+                odd = sorted(members)
+            detail = "%s differ%s from %s beyond the kind's names: the C functions of the three kinds are meant to be the same " \
+                     "wrapper of the same Rust API call" % (
+                         ", ".join("%s (%s)" % (F.nice(members[k][0]), F.where(members[k][0])) for k in odd),
+                         "" if len(odd) > 1 else "s",
+                         "each other" if len(big) == 1 else "/".join("oxidd_%s_%s" % (k, suf) for k in sorted(big)))
+        ctx.ob(rule, "%s:%s" % (rule, suf), ok, detail)
+    for key, why in SIBLING_EXCEPTIONS.items():
+        ctx.ob(rule + ".exception", "%s.exception:%s:%s" % (rule, key[1], key[0]), key in used,
+               "reviewed deviation oxidd_%s_%s: %s%s" % (key[1], key[0], why, "" if key in used else " -- no longer exists"),
+               nontrivial=False)
+    return n
